@@ -962,7 +962,7 @@ func (self *Analyzer) spawnsFunctionValue(base pAst.Expression) bool {
 		return false
 	}
 	// (a builtin function is a host value as well: there is no compiled function a thread could start in)
-	return variable.Origin != ImportedVariableOriginKind
+	return variable.Origin != ImportedVariableOriginKind || variable.FromHost
 }
 
 // TODO: also forbid invoking a spawn fn which returns a closure.
